@@ -1260,4 +1260,10 @@ def _to_extended_offset_and_delta(offsetSeconds: int, deltaSeconds: int) -> \
     offsetCode = offsetSeconds // 900  # truncate to -infinty
     offsetMinute = (offsetSeconds % 900) // 60  # always positive
     baseDeltaCode = _to_extended_delta_code(deltaSeconds)
-    return (offsetCode, f"({offsetMinute} << 4) + {baseDeltaCode}")
+    deltaCode = f"({offsetMinute} << 4) + {baseDeltaCode}"
+    if offsetMinute >= 8:
+        # The value does not fit into the (signed) int8_t 'deltaCode' field as
+        # a literal, which is a narrowing error in a C++11 initializer list.
+        # The bit pattern is what the ZoneEraBroker decodes.
+        deltaCode = f"(int8_t) ({deltaCode})"
+    return (offsetCode, deltaCode)
